@@ -908,14 +908,17 @@ class Variable(CanBehaveLikeAVariable[T]):
 
     def _evaluate_kwargs_expression_(self, sources: Optional[Dict[int, HashedValue]] = None):
         self._evaluating_kwargs_expression_ = True
-        for v in self._kwargs_expression_._evaluate__(sources, yield_when_false=self._yield_when_false_):
-            if self is self._conditions_root_ or isinstance(self._parent_, LogicalOperator):
-                self._is_false_ = self._kwargs_expression_._is_false_
-                if not self._is_false_ or self._yield_when_false_:
+        try:
+            for v in self._kwargs_expression_._evaluate__(sources, yield_when_false=self._yield_when_false_):
+                if self is self._conditions_root_ or isinstance(self._parent_, LogicalOperator):
+                    self._is_false_ = self._kwargs_expression_._is_false_
+                    if not self._is_false_ or self._yield_when_false_:
+                        yield v
+                else:
                     yield v
-            else:
-                yield v
-        self._evaluating_kwargs_expression_ = False
+        finally:
+            # also when the consumer abandons the evaluation: the next one must apply the keyword constraints again.
+            self._evaluating_kwargs_expression_ = False
 
     def _update_domain_and_kwargs_expression_(self):
         self._domain_source_ = From(self._cache_values_)
